@@ -15,6 +15,9 @@
 mod build;
 mod caps;
 mod drive;
+mod mock;
+#[cfg(feature = "arbitrary")]
+mod arb;
 mod ops;
 mod ops2;
 mod proj;
